@@ -130,41 +130,26 @@ Proof.
         rewrite R2. eapply firstn_le_eq; [|apply K1; eapply small_le; [|exact Hs]; lia]. unfold F; lia.
 Qed.
 
+Lemma image_eq c : image c empty_wst = run_plan c HEADER_SZ (map fst stream_plan) 0 ([], CNone) [] [(head_state c, [])] (head_state c).
+Proof. unfold image. unfold bind at 1. rewrite image_head_eq. reflexivity. Qed.
+
+Lemma side1 c : HEADER_SZ + DIRENT_SZ * (0 + length (types_of (map fst stream_plan))) <= blen (head_state c).
+Proof. rewrite head_state_len, plan_types_are. vm_compute. lia. Qed.
+
 Theorem image_directory c dirs lg s' :
   image c empty_wst = Ok ((dirs, lg), s') -> small (blen s') ->
   slice (w_buf s') 0 HEADER_SZ = enc_header (ic_time c) (N.of_nat HEADER_SZ) /\
   slice (w_buf s') HEADER_SZ (DIRENT_SZ * NUM_DIRS) = concat (map enc_dirent dirs) /\
   length dirs = NUM_DIRS.
 Proof.
-  intros E Hs. unfold image in E.
-  unfold bind at 1 in E. destruct (w_alloc KHeader (repeat 0%N HEADER_SZ) empty_wst) as [[hd s1]| |] eqn:E1; try discriminate.
-  injection E1 as Hhd Hs1.
-  unfold bind at 1 in E. destruct (w_alloc KDirectory (repeat 0%N (DIRENT_SZ * NUM_DIRS)) s1) as [[dir s2]| |] eqn:E2; try discriminate.
-  injection E2 as Hdir Hs2.
-  assert (Hhd0 : N.to_nat (l_rva hd) = 0) by (rewrite <- Hhd; reflexivity).
-  assert (Hb1 : w_buf s1 = repeat 0%N HEADER_SZ) by (rewrite <- Hs1; reflexivity).
-  assert (Hdirn : l_rva dir = 32%N) by (rewrite <- Hdir, Hb1, repeat_length; reflexivity).
-  assert (Hdir0 : N.to_nat (l_rva dir) = 32) by (rewrite Hdirn; reflexivity).
-  assert (Hb2 : w_buf s2 = repeat 0%N HEADER_SZ ++ repeat 0%N (DIRENT_SZ * NUM_DIRS)) by (rewrite <- Hs2; cbn [w_buf]; now rewrite Hb1).
-  assert (Hlen2 : length (w_buf s2) = 248) by (rewrite Hb2, app_length, !repeat_length; reflexivity).
-  unfold bind at 1 in E.
-  destruct (w_patch (N.to_nat (l_rva hd)) (enc_header (ic_time c) (l_rva dir)) s2) as [[u s3]| |] eqn:E3; try discriminate.
-  unfold w_patch in E3. rewrite Hhd0 in E3. rewrite write_at_inside in E3 by (rewrite enc_header_len, Hlen2; unfold HEADER_SZ; lia).
-  injection E3 as _ Hs3.
-  assert (Hb3 : w_buf s3 = update (w_buf s2) 0 (enc_header (ic_time c) (l_rva dir))) by (rewrite <- Hs3; reflexivity).
-  assert (Hl3 : blen s3 = 248) by (unfold blen; rewrite Hb3, update_length; [exact Hlen2|rewrite enc_header_len, Hlen2; unfold HEADER_SZ; lia]).
-  rewrite Hdir0 in E. unfold bind at 1 in E. cbn [w_get] in E.
-  destruct (run_plan_dir c 32 (map fst stream_plan) 0 ([], CNone) [] _ s3 dirs lg s' E) as (R1 & R2 & R3 & R4).
-  - rewrite Hl3, plan_types_are. vm_compute. lia.
-  - reflexivity.
-  - exact Hs.
-  - reflexivity.
-  - rewrite plan_types_are in R1, R4. change (length plan_types) with NUM_DIRS in R1, R4. cbn [plus] in R1, R4.
-    split; [|split; [exact R1|exact R4]].
-    transitivity (slice (w_buf s3) 0 HEADER_SZ).
-    + apply slice_firstn_eq. exact R2.
-    + rewrite Hb3, Hdirn. change (N.of_nat HEADER_SZ) with 32%N.
-      rewrite <- (enc_header_len (ic_time c) 32%N). apply slice_update_same.
-      rewrite enc_header_len, Hlen2. unfold HEADER_SZ. lia.
+  intros E Hs. rewrite image_eq in E.
+  destruct (run_plan_dir c HEADER_SZ (map fst stream_plan) 0 ([], CNone) [] _ (head_state c) dirs lg s' E (side1 c) eq_refl Hs eq_refl) as (R1 & R2 & R3 & R4).
+  rewrite plan_types_are in R1, R4. change (length plan_types) with NUM_DIRS in R1, R4. cbn [plus] in R1, R4.
+  split; [|split; [exact R1|exact R4]].
+  transitivity (slice (w_buf (head_state c)) 0 HEADER_SZ).
+  + apply slice_firstn_eq. exact R2.
+  + unfold head_state. cbn [w_buf]. change (N.of_nat HEADER_SZ) with 32%N.
+    rewrite <- (enc_header_len (ic_time c) 32%N). apply slice_update_same.
+    rewrite enc_header_len, app_length, !repeat_length. unfold HEADER_SZ. cbn. lia.
 Qed.
 Print Assumptions image_directory.
